@@ -131,6 +131,7 @@ class Labeller:
         self.mapvar = mapvar
         self.params = params or {}
         self._busy = set()
+        self._fold = None
         # local containers that are filled in place (append / extend / += ...) must stay names: their unique `x = []`
         # definition says nothing about their content
         self.mutated = set()
@@ -159,6 +160,23 @@ class Labeller:
         if at is None:
             at = self.node(e)
         return self.lab(self.expand(e, at), at, env or {})
+
+    def short(self, node: ast.AST, skip: str = None) -> str:
+        """source text of an (expanded) expression with expanded local definitions folded back into their names"""
+        if self._fold is None:
+            self._fold = []
+            for d in self.flow.defs:
+                if d.kind == 'assign' and d.value is not None and '.' not in d.var and len(self.flow.defs_of(d.var)) == 1 and \
+                        not isinstance(d.value, (ast.Name, ast.Constant)):
+                    for t in {src(d.value), src(self.expand(d.value, d.node))}:
+                        if len(t) > len(d.var) + 4:
+                            self._fold.append((t, d.var))
+            self._fold.sort(key=lambda p: -len(p[0]))
+        t = src(node) if isinstance(node, ast.AST) else str(node)
+        for long, name in self._fold:
+            if name != skip:
+                t = t.replace(long, name)
+        return t
 
     def is_map(self, e: ast.AST) -> bool:
         return isinstance(e, ast.Name) and e.id == self.mapvar
@@ -973,11 +991,11 @@ class CloneAnalysis:
             rl = L.lab(recv, cn, {})
             if rl.kind in SOURCEISH or (rl.kind == 'MAPPED' and rl.origin == 'link'):
                 what = "a task of the source WBS" if rl.kind in SOURCEISH else "the map entry of a LINKED task, which may be an outside task"
-                self.refute(f, st, tgt, f"`{src(tgt)}` is assigned on {what} (`{src(recv)[:60]}`), not on the copy `map[t.id]` of a selected "
+                self.refute(f, st, tgt, f"`{src(tgt)}` is assigned on {what} (`{L.short(recv, src(tgt.value))[:60]}`), not on the copy `map[t.id]` of a selected "
                                         f"task: the rebuild writes through a non-copy", 'receivers')
                 continue
             if rl.kind != 'CLONE' or self._map_lookup(L, recv) is None:
-                self.undecided(f, st, tgt, f"cannot show that the receiver `{src(recv)[:60]}` is the copy of a selected task", 'receivers')
+                self.undecided(f, st, tgt, f"cannot show that the receiver `{L.short(recv, src(tgt.value))[:60]}` is the copy of a selected task", 'receivers')
                 continue
             bad = full_selection(rl)
             if bad:
@@ -1010,7 +1028,9 @@ class CloneAnalysis:
                                                               f"on the traversal order - not decided", 'relations')
 
     def _parent_rhs(self, st, tgt, rhs, cn, origin, stmt_atoms) -> bool:
+        """`<copy>.parent = <rhs>`; provenance findings go to 'receivers', faithfulness findings to 'relations'"""
         f, L = self.f, self.L
+        sh = L.short
         leaves = []
 
         def walk(e, conds):
@@ -1023,162 +1043,162 @@ class CloneAnalysis:
             else:
                 leaves.append(('value', e, conds))
         walk(rhs, list(stmt_atoms))
-        ok, found = True, False
+        prov_ok, rel_ok, found = True, True, False
+
+        def rel_bad(kind, msg):
+            nonlocal rel_ok
+            rel_ok = False
+            (self.refute if kind == 'refute' else self.undecided)(f, st, st, msg, 'relations')
+
         for kind, e, conds in leaves:
             if kind == 'value' and isinstance(e, ast.Constant) and e.value is None:
                 continue
-            lk = self._map_lookup(L, e) if kind == 'value' else None
-            el = L.lab(e, cn, {})
             if kind == 'falsy':
                 if not (match("$s.parent", e) and L.lab(e.value, cn, {}).kind == 'SRC'):
-                    self.undecided(f, st, e, "unrecognised short-circuit operand in the parent rebuild", 'relations')
-                    ok = False
+                    rel_bad('undecided', f"unrecognised short-circuit operand `{sh(e)}` in the parent rebuild")
                 continue
+            lk = self._map_lookup(L, e)
             if lk is None:
-                if el.kind in SOURCEISH:
-                    self.refute(f, st, e, f"`{src(tgt)}` is set to `{src(e)[:60]}`, a task of the source WBS, not to a clone-map lookup: the "
-                                          f"copy is hung under the source's parent (and the source's children list is modified)", 'receivers')
+                prov_ok = False
+                if L.lab(e, cn, {}).kind in SOURCEISH:
+                    self.refute(f, st, st, f"`{src(tgt)}` is set to `{sh(e)[:60]}`, a task of the source WBS, not to a clone-map lookup: the "
+                                           f"copy is hung under the source's parent (and the source's children list is modified)", 'receivers')
                 else:
-                    self.undecided(f, st, e, "parent of the copy is not a clone-map lookup or None", 'receivers')
-                ok = False
+                    self.undecided(f, st, st, f"parent of the copy (`{sh(e)[:60]}`) is not a clone-map lookup or None", 'receivers')
                 continue
+            found = True
             key, is_sub = lk
             mk = match("$s.parent.id", key)
             sl = L.lab(mk['s'], cn, {}) if mk else None
             if not mk or sl.kind != 'SRC':
-                self.undecided(f, st, key, "parent of the copy is looked up under a key other than `<source task>.parent.id`", 'relations')
-                ok = False
+                rel_bad('undecided', f"parent of the copy is looked up under `{sh(key)[:60]}`, not under `<source task>.parent.id`")
                 continue
             if sl.origin is None or sl.origin != origin:
-                self.refute(f, st, key, f"the parent of the copy of one task is looked up from another task's parent (`{src(key)[:60]}`)",
-                            'relations')
-                ok = False
+                rel_bad('refute', f"the parent of the copy of one task is looked up from another task's parent (`{sh(key)[:60]}`)")
                 continue
             par_expr = key.value
             nonnull = in_map = False
+            bad_here = False
             for atom, pol in conds:
+                txt = f"`{'' if pol else 'not '}{sh(atom)[:60]}`"
                 if same(atom, par_expr):
                     if pol:
                         nonnull = True
                     else:
-                        self.refute(f, st, atom, "the parent lookup runs when the source task has NO parent (inverted test): "
-                                                 "`.id` of None", 'relations')
-                        ok = False
+                        rel_bad('refute', f"the parent lookup runs under {txt}, i.e. when the source task has NO parent (inverted test)")
+                        bad_here = True
                     continue
                 m = match("$p is not None", atom) or match("$p is None", atom)
                 if m and same(m['p'], par_expr):
                     if isinstance(atom.ops[0], ast.IsNot) == pol:
                         nonnull = True
                     else:
-                        self.refute(f, st, atom, "the parent lookup runs when the source task has NO parent (inverted test)", 'relations')
-                        ok = False
+                        rel_bad('refute', f"the parent lookup runs under {txt}, i.e. when the source task has NO parent (inverted test)")
+                        bad_here = True
                     continue
                 m = match("$k in $m", atom) or match("$k not in $m", atom)
                 if m and L.is_map(m['m']) and same(m['k'], key):
                     if isinstance(atom.ops[0], ast.In) == pol:
                         in_map = True
                     else:
-                        self.refute(f, st, atom, "the parent is looked up only when its id is NOT in the clone map", 'relations')
-                        ok = False
+                        rel_bad('refute', f"the parent is looked up only under {txt}, i.e. when its id is NOT in the clone map")
+                        bad_here = True
                     continue
-                self.undecided(f, st, atom, "unrecognised condition on the parent rebuild", 'relations')
-                ok = False
-            if not nonnull and ok:
-                self.refute(f, st, e, f"`{src(key)[:60]}` is evaluated without testing that the source task has a parent: root tasks "
-                                      f"have parent None", 'relations')
-                ok = False
-            if is_sub and not in_map and ok:
-                self.refute(f, st, e, f"`{src(e)[:60]}` subscripts the clone map with the parent's id: for subtree() the parent of a "
-                                      f"given root is a non-selected member, so this raises KeyError (expected map.get(..) -> None)",
-                            'relations')
-                ok = False
-            found = True
-        if ok and not found:
-            self.refute(f, st, st, "the parent of every copy is set to None: the hierarchy is not carried over", 'relations')
-            ok = False
-        if ok:
+                rel_bad('undecided', f"unrecognised condition {txt} on the parent rebuild")
+                bad_here = True
+            if bad_here:
+                continue
+            if not nonnull:
+                rel_bad('refute', f"`{sh(key)[:60]}` is evaluated without testing that the source task has a parent: root tasks have "
+                                  f"parent None")
+            elif is_sub and not in_map:
+                rel_bad('refute', f"`{sh(e)[:60]}` subscripts the clone map with the parent's id: for subtree() the parent of a given "
+                                  f"root is a non-selected member, so this raises KeyError (expected map.get(..) -> None)")
+        if prov_ok and rel_ok and not found:
+            rel_bad('refute', "the parent of every copy is set to None: the hierarchy is not carried over")
+        if prov_ok:
             self.site(f, st, "copy.parent = map.get(src.parent.id) if src.parent else None", 'receivers')
+        if prov_ok and rel_ok:
             self.site(f, st, "parent rebuilt from the source's parent", 'relations')
-        return ok
+        return prov_ok and rel_ok
 
     def _list_rhs(self, st, tgt, rel, rhs, cn, origin) -> bool:
+        """`<copy>.<rel> = <rhs>` for the three list relations"""
         f, L = self.f, self.L
+        sh = L.short
+        rel_ok = True
+
+        def rel_bad(kind, msg):
+            nonlocal rel_ok
+            rel_ok = False
+            (self.refute if kind == 'refute' else self.undecided)(f, st, st, msg, 'relations')
+
         comp, bad = strip_seq_wrappers(rhs)
         if bad:
-            self.refute(f, st, st.value, f"`{rel}` of the copy is passed through {'/'.join(bad)}(): the source's list order is not "
-                                         f"preserved", 'relations')
-            return False
+            rel_bad('refute', f"`{rel}` of the copy is passed through {'/'.join(bad)}(): the source's list order is not preserved")
         if not isinstance(comp, (ast.ListComp, ast.GeneratorExp)) or len(comp.generators) != 1 or \
                 not isinstance(comp.generators[0].target, ast.Name):
-            el = L.lab(rhs, cn, {})
-            if el.kind in SOURCEISH:
-                self.refute(f, st, st.value, f"`{src(tgt)}` is assigned `{src(rhs)[:60]}`: tasks of the source WBS, not clone-map lookups; "
-                                             f"the setter rewires the source tasks", 'receivers')
+            if L.lab(rhs, cn, {}).kind in SOURCEISH:
+                self.refute(f, st, st, f"`{src(tgt)}` is assigned `{sh(rhs)[:60]}`: tasks of the source WBS, not clone-map lookups; the "
+                                       f"setter rewires the source tasks", 'receivers')
             else:
-                self.undecided(f, st, st.value, f"`{rel}` of the copy is not a single comprehension over the source's list", 'relations')
+                self.undecided(f, st, st, f"`{rel}` of the copy is not a single comprehension of clone-map lookups over the source's list",
+                               'receivers')
             return False
         g = comp.generators[0]
         x = g.target.id
+        # ---- provenance of the elements
+        lk = self._map_lookup(L, comp.elt)
+        if lk is None or not match(f"{x}.id", lk[0]):
+            el = L.lab(comp.elt, cn, {x: Lab('LINK')})
+            if isinstance(comp.elt, ast.Name) and comp.elt.id == x or el.kind in SOURCEISH:
+                self.refute(f, st, st, f"`{rel}` of the copy contains the source's own tasks (`{sh(comp.elt)}`), not their clone-map "
+                                       f"entries: the setter rewires the source WBS", 'receivers')
+            elif match(f"{x}.clone($*a)", comp.elt):
+                self.refute(f, st, st, f"`{rel}` of the copy contains additional fresh clones (`{sh(comp.elt)}`) instead of the clone-map "
+                                       f"entries: the copies are not the ones placed in the new WBS", 'receivers')
+            else:
+                self.undecided(f, st, st, f"element `{sh(comp.elt)[:60]}` of the rebuilt `{rel}` is not `map[x.id]`", 'receivers')
+            return False
+        self.site(f, st, f"copy.{rel} = [map[x.id] for x in ...]", 'receivers')
+        # ---- faithfulness: same relation of the same task, order, filters
         it, bad = strip_seq_wrappers(g.iter)
         if bad:
-            self.refute(f, st, g.iter, f"`{rel}` of the copy is built from {'/'.join(bad)}(<source list>): the source's list order is not "
-                                       f"preserved", 'relations')
-            return False
+            rel_bad('refute', f"`{rel}` of the copy is built from {'/'.join(bad)}(<source list>): the source's list order is not preserved")
         if not isinstance(it, ast.Attribute):
-            self.undecided(f, st, g.iter, f"`{rel}` of the copy does not iterate a relation of the source task", 'relations')
+            rel_bad('undecided', f"`{rel}` of the copy iterates `{sh(g.iter)[:60]}`, not a relation of the source task")
             return False
         sl = L.lab(it.value, cn, {})
         if sl.kind != 'SRC':
-            self.undecided(f, st, g.iter, f"cannot show that `{src(it.value)[:60]}` is the source task of the copy", 'relations')
+            rel_bad('undecided', f"cannot show that `{sh(it.value)[:60]}` is the source task of the copy")
             return False
         if it.attr != rel:
-            self.refute(f, st, g.iter, f"`{rel}` of the copy is rebuilt from the source's `{it.attr}` (expected the relation of the same "
-                                       f"name)", 'relations')
-            return False
+            rel_bad('refute', f"`{rel}` of the copy is rebuilt from the source's `{it.attr}` (expected the relation of the same name)")
         if sl.origin is None or sl.origin != origin:
-            self.refute(f, st, g.iter, f"`{rel}` of the copy of one task is rebuilt from another task's list (`{src(it)[:60]}`)", 'relations')
-            return False
-        # element
-        lk = self._map_lookup(L, comp.elt)
-        if lk is None or not (match(f"{x}.id", lk[0])):
-            el = L.lab(comp.elt, cn, {x: Lab('LINK')})
-            if isinstance(comp.elt, ast.Name) and comp.elt.id == x or el.kind in SOURCEISH:
-                self.refute(f, st, comp.elt, f"`{rel}` of the copy contains the source's own tasks (`{src(comp.elt)}`), not their clone-map "
-                                             f"entries: the setter rewires the source WBS", 'receivers')
-            elif match(f"{x}.clone($*a)", comp.elt):
-                self.refute(f, st, comp.elt, f"`{rel}` of the copy contains additional fresh clones instead of the clone-map entries: "
-                                             f"the copies are not the ones placed in the new WBS", 'receivers')
-            else:
-                self.undecided(f, st, comp.elt, f"element of the rebuilt `{rel}` is not `map[x.id]`", 'receivers')
-            return False
-        # filters
+            rel_bad('refute', f"`{rel}` of the copy of one task is rebuilt from another task's list (`{sh(it)[:60]}`)")
         has_in = False
-        ok = True
         for c in g.ifs:
             for atom, pol in facts.split_conj(c, True):
+                txt = f"`{'' if pol else 'not '}{sh(atom)[:70]}`"
                 m = match("$k in $m", atom) or match("$k not in $m", atom)
                 if m and L.is_map(m['m']) and match(f"{x}.id", m['k']):
                     if isinstance(atom.ops[0], ast.In) == pol:
                         has_in = True
                     else:
-                        self.refute(f, st, atom, f"`{rel}` keeps only tasks whose id is NOT in the clone map", 'relations')
-                        ok = False
+                        rel_bad('refute', f"`{rel}` keeps only tasks under {txt}, i.e. whose id is NOT in the clone map")
                     continue
                 if x in {n.id for n in ast.walk(atom) if isinstance(n, ast.Name)}:
-                    self.refute(f, st, atom, f"`{rel}` of the copy is additionally filtered by `{'' if pol else 'not '}{src(atom)}`: links are "
-                                             f"dropped (or kept) by something other than `id in clone map`", 'relations')
+                    rel_bad('refute', f"`{rel}` of the copy is additionally filtered by {txt}: links are dropped (or kept) by something "
+                                      f"other than `id in clone map`")
                 else:
-                    self.undecided(f, st, atom, f"unrecognised filter in the rebuild of `{rel}`", 'relations')
-                ok = False
-        if not ok:
-            return False
-        if rel in DEP_RELS and not has_in:
-            self.refute(f, st, st.value, f"`{rel}` of the copy is not filtered by `{x}.id in {self.mapvar}`: a link to a non-selected member "
-                                         f"of the source raises KeyError / yields None instead of being left out", 'relations')
-            return False
-        self.site(f, st, f"copy.{rel} = [map[x.id] for x in src.{rel}" + (" if x.id in map]" if has_in else "]"), 'receivers')
-        self.site(f, st, f"{rel} rebuilt in source order from the relation of the same name", 'relations')
-        return True
+                    rel_bad('undecided', f"unrecognised filter {txt} in the rebuild of `{rel}`")
+        if rel_ok and rel in DEP_RELS and not has_in:
+            rel_bad('refute', f"`{rel}` of the copy is not filtered by `{x}.id in {self.mapvar}`: a link to a non-selected member of the "
+                              f"source raises KeyError / yields None instead of being left out")
+        if rel_ok:
+            self.site(f, st, f"{rel} rebuilt in source order from the relation of the same name" +
+                      (", filtered only by id in map" if has_in else ""), 'relations')
+        return rel_ok
 
     # ---------------------------------------------------------------- (e) assembly of the new WBS
     def _assembly(self):
